@@ -2103,13 +2103,6 @@ Qed.
 Lemma cntT_cntU fl t : cntT fl t + cntU fl t = t.
 Proof. induction t as [|t IH]; [reflexivity|]. rewrite cntT_S, cntU_S. destruct (fl t); lia. Qed.
 
-(** Rows of [rows] (numbered from t) that the replay did not apply. *)
-Fixpoint urows (fl : nat -> bool) (t : nat) (rows : dendrogram) : dendrogram :=
-  match rows with
-  | [] => []
-  | r :: rest => if fl t then urows fl (S t) rest else r :: urows fl (S t) rest
-  end.
-
 Lemma urows_length fl rows : forall t, length (urows fl t rows) + cntU fl t = cntU fl (t + length rows).
 Proof.
   induction rows as [|r rows IH]; intros t; simpl; [now rewrite Nat.add_0_r|].
@@ -2267,7 +2260,7 @@ Proof.
         unfold phi at 2. unfold inside_b. replace (n + t - n) with t by lia. rewrite Hfl, orb_true_r.
         unfold phi. now rewrite Hbi.
       * intros r0 Hr0 Hnot. apply R5; [exact Hr0|]. intros Hc. apply Hnot. rewrite flat_map_app, in_app_iff. now left.
-      * intros x Hx Hout'. rewrite akeys_app, in_app_iff in Hx. destruct Hx as [Hx|[<-|[]]].
+      * intros x Hx Hout'. rewrite akeys_app, in_app_iff in Hx. cbn [akeys map fst] in Hx. destruct Hx as [Hx|[<-|[]]].
         -- apply R6; [|exact Hout']. now apply akeys_aremove_In, akeys_aremove_In in Hx.
         -- unfold inside_b in Hout'. replace (n + t - n) with t in Hout' by lia. rewrite Hfl, orb_true_r in Hout'. discriminate.
     + exists out. rewrite app_length in Hout, Hh. simpl in Hout, Hh. rewrite Nat.add_1_r in Hout, Hh. fold t in Hout, Hh.
@@ -2309,7 +2302,7 @@ Proof.
         unfold phi, inside_b. replace (n + t - n) with t by lia. rewrite Hfl, orb_false_r.
         replace (Nat.ltb (n + t) n) with false by (symmetry; apply Nat.ltb_ge; lia). reflexivity.
       * apply NoDup_akeys_app_fresh; [apply NoDup_aremove, NoDup_aremove, R3|]. intros Hc. apply Hcn_fresh. now apply Hcs_keys.
-      * intros m Hm. rewrite akeys_app, in_app_iff in Hm. destruct Hm as [Hm|[<-|[]]].
+      * intros m Hm. rewrite akeys_app, in_app_iff in Hm. cbn [akeys map fst] in Hm. destruct Hm as [Hm|[<-|[]]].
         -- apply Hcs_keys, R4 in Hm. lia.
         -- unfold cn. lia.
       * intros r0 Hr0 Hnot. rewrite flat_map_app, in_app_iff in Hnot. simpl in Hnot.
@@ -2323,7 +2316,7 @@ Proof.
         -- destruct (inside_b (r_right r)) eqn:Ej.
            ++ unfold phi. rewrite Ej. intros E. apply Hr0j. apply red_root_inj; auto.
            ++ unfold phi. rewrite Ej. lia.
-      * intros x Hx Hxo. rewrite akeys_app, in_app_iff in Hx. destruct Hx as [Hx|[<-|[]]].
+      * intros x Hx Hxo. rewrite akeys_app, in_app_iff in Hx. cbn [akeys map fst] in Hx. destruct Hx as [Hx|[<-|[]]].
         -- assert (Hx' : In x (akeys cindex) /\ x <> r_left r /\ x <> r_right r).
            { rewrite akeys_aremove_iff in Hx by now apply NoDup_aremove. rewrite akeys_aremove_iff in Hx by assumption. tauto. }
            destruct Hx' as (Hxk & Hxi & Hxj).
@@ -2343,4 +2336,218 @@ Proof.
       rewrite cntU_S, Hfl, <- !plus_n_Sm, Nat.add_0_r in Hout. fold cn in Hout. rewrite Hout.
       eexists. split; [reflexivity|]. unfold heights in *. simpl. now rewrite Hh.
 Qed.
+(** A merge that was not applied joins leaves carrying different labels. *)
+Lemma red_unapplied_diff : forall t r, nth_error D t = Some r -> fl t = false ->
+  exists u v, In u (leaves n D (n + t)) /\ In v (leaves n D (n + t)) /\ nth u labels 0 <> nth v labels 0.
+Proof.
+  assert (Hids := valid_ids_lt n D Hv). destruct (valid_rows n D Hv) as [Hlen Hrows].
+  intros t. induction t as [t IH] using lt_wf_ind. intros r Hr Hfl.
+  assert (Ht : t < length D) by (apply nth_error_Some; congruence).
+  destruct (Hrows t r Hr) as (Hne & Hil & Hjl & _).
+  assert (Hnode := leaves_node n D t r Hids Hr).
+  assert (Hsub : forall c, In c (children r) -> inside_b c = false ->
+                 exists u v, In u (leaves n D c) /\ In v (leaves n D c) /\ nth u labels 0 <> nth v labels 0).
+  { intros c Hc Hcb. unfold inside_b in Hcb. apply orb_false_iff in Hcb. destruct Hcb as [Hc1 Hc2].
+    apply Nat.ltb_ge in Hc1. assert (Hct : c - n < t) by (destruct Hc as [<-|[<-|[]]]; lia).
+    assert (Hcl : c - n < length D) by lia. apply nth_error_Some in Hcl.
+    destruct (nth_error D (c - n)) as [rc|] eqn:Erc; [|congruence].
+    destruct (IH (c - n) Hct rc Erc Hc2) as (u & v & Hu & Hv' & Huv).
+    replace (n + (c - n)) with c in Hu, Hv' by lia. now exists u, v. }
+  assert (Hhd : forall c, c < n + t -> In (hd 0 (leaves n D c)) (leaves n D c)).
+  { intros c Hc. assert (Hn : leaves n D c <> []) by (apply leaves_nonempty; [assumption|lia]).
+    destruct (leaves n D c); [congruence | now left]. }
+  destruct (inside_b (r_left r)) eqn:Ei.
+  - destruct (inside_b (r_right r)) eqn:Ej.
+    + exists (hd 0 (leaves n D (r_left r))), (hd 0 (leaves n D (r_right r))).
+      rewrite Hnode. split; [apply in_app_iff; left; now apply Hhd|]. split; [apply in_app_iff; right; now apply Hhd|].
+      intros E. apply Hne. apply red_root_inj; [| |exact E].
+      * apply (red_top t r _ Hr Hfl); [now left | exact Ei].
+      * apply (red_top t r _ Hr Hfl); [right; now left | exact Ej].
+    + destruct (Hsub (r_right r) ltac:(right; now left) Ej) as (u & v & Hu & Hv' & Huv).
+      exists u, v. rewrite Hnode. split; [apply in_app_iff; now right|]. split; [apply in_app_iff; now right|exact Huv].
+  - destruct (Hsub (r_left r) ltac:(now left) Ei) as (u & v & Hu & Hv' & Huv).
+    exists u, v. rewrite Hnode. split; [apply in_app_iff; now left|]. split; [apply in_app_iff; now left|exact Huv].
+Qed.
 End Reduced.
+
+Lemma alookup_init_live ws l : l < length ws -> alookup l (init_live ws) = Some (nth l ws 0).
+Proof.
+  intros Hl. apply In_alookup; [rewrite init_live_keys; apply seq_NoDup|].
+  unfold init_live. assert (H : forall (w : list nat) s i, i < length w -> In (s + i, nth i w 0) (combine (seq s (length w)) w)).
+  { induction w as [|a w IH]; intros s i Hi; simpl in *; [lia|]. destruct i as [|i].
+    - left. now rewrite Nat.add_0_r.
+    - right. replace (s + S i) with (S s + i) by lia. apply IH. lia. }
+  exact (H ws 0 l Hl).
+Qed.
+
+Lemma sumn_lengths_concat (cs : list (list nat)) : sumn (map (@length nat) cs) = length (concat cs).
+Proof. induction cs as [|c cs IH]; simpl; [reflexivity|]. now rewrite app_length, IH. Qed.
+
+Lemma urows_ext fl g rows : forall t,
+  (forall t', t <= t' < t + length rows -> fl t' = g t') -> urows fl t rows = urows g t rows.
+Proof.
+  induction rows as [|r rows IH]; intros t H; simpl; [reflexivity|].
+  rewrite (H t) by (simpl; lia). rewrite (IH (S t)) by (intros t' Ht'; apply H; simpl; lia). reflexivity.
+Qed.
+
+Lemma get_labels_reduced guard argsort n D st sort :
+  valid n D = true -> argsort_ok argsort ->
+  replay guard n D (init_clusters n) = Ok st ->
+  exists labels Dnew,
+    get_labels argsort D st sort true = Ok (labels, Some Dnew) /\
+    let ws := map (cluster_size labels) (seq 0 (num_clusters labels)) in
+    validw ws Dnew = true /\ sumn ws = n /\
+    heights Dnew = heights (unmerged_rows n D labels).
+Proof.
+  intros Hv Hargs Hrep. destruct (valid_rows n D Hv) as [Hlen Hrows]. assert (Hids := valid_ids_lt n D Hv).
+  destruct (ginv_replay guard n D Hv D [] (fun _ => false) (init_clusters n) st eq_refl (ginv_init n D)) as [fl HG].
+  { simpl. now rewrite Nat.add_0_r. }
+  set (pst := pstate argsort st sort). assert (P : Permutation pst st) by now apply pstate_perm.
+  set (labels := labels_of n (map snd pst)).
+  assert (Hcp := red_cpart n D fl st HG pst P).
+  destruct (cpart_labels n D pst Hcp) as (Hl1 & Hl2 & Hl3 & Hl4). fold labels in Hl1, Hl2, Hl3, Hl4.
+  set (clusters := map snd pst). set (ws0 := map (@length nat) clusters).
+  (* the loop starts in a state satisfying the invariant *)
+  assert (Hr0 : rinv n D fl st pst 0 (combine (seq 0 n) labels) (init_live ws0)).
+  { unfold rinv. simpl firstn. split; [|split; [|split; [|split; [|split]]]].
+    - assert (H0 := linv_init labels). unfold init_live in H0. now rewrite Hl1 in H0.
+    - intros x v H. apply alookup_In in H. rewrite <- Hl1 in H at 1. apply (combine_seq_In_gen labels 0) in H.
+      destruct H as [H1 H2]. rewrite Nat.sub_0_r in H1. rewrite Hl1 in H2.
+      replace (Nat.ltb x n) with true by (symmetry; apply Nat.ltb_lt; lia). simpl.
+      rewrite leaves_leaf by lia. simpl. now symmetry.
+    - rewrite init_live_keys. apply seq_NoDup.
+    - intros m Hm. rewrite init_live_keys in Hm. apply in_seq in Hm. unfold ws0, clusters in Hm.
+      rewrite !map_length in Hm. unfold cntU. simpl. lia.
+    - intros r Hr _. destruct (red_root_lab n D fl st HG pst P r Hr) as (c & _ & Ec & Hlt & Enth).
+      fold labels in Hlt, Enth. rewrite alookup_init_live by (unfold ws0, clusters; now rewrite !map_length).
+      f_equal. unfold ws0, clusters. rewrite map_map.
+      rewrite (nth_indep _ 0 ((fun x : nat * list nat => length (snd x)) (0, []))) by now rewrite map_length.
+      fold labels. rewrite (map_nth (fun x : nat * list nat => length (snd x))), Enth. simpl. now rewrite Ec.
+    - intros x Hx Hout. exfalso. unfold akeys in Hx. rewrite map_fst_combine in Hx by now rewrite seq_length.
+      apply in_seq in Hx. apply orb_false_iff in Hout. destruct Hout as [Hout _]. apply Nat.ltb_ge in Hout. lia. }
+  destruct (red_loop n D Hv fl st HG pst P D [] _ _ eq_refl Hr0) as [out [Hout Hh]].
+  simpl in Hout, Hh. rewrite Nat.add_0_r in Hout. unfold cntU in Hout at 1. simpl in Hout. rewrite Nat.add_0_r in Hout.
+  exists labels, out.
+  assert (Hget : get_labels argsort D st sort true = Ok (labels, Some out)).
+  { unfold get_labels. rewrite Hlen.
+    assert (E : (if sort then map (fun i => nth i (map snd st) []) (argsort (map (fun c => (- Z.of_nat (length c))%Z) (map snd st)))
+                 else map snd st) = clusters).
+    { unfold clusters, pst, pstate, negsizes. destruct sort; [|reflexivity]. etransitivity; [|symmetry; apply map_map].
+      apply map_ext. intros i. exact (map_nth snd st (0, []) i). }
+    assert (Hlw' : length ws0 = length pst) by (unfold ws0, clusters; now rewrite !map_length).
+    rewrite E. change (labels_of n clusters) with labels. rewrite Hl1.
+    replace (length clusters) with (length pst) by (unfold clusters; now rewrite map_length).
+    change (map (@length nat) clusters) with ws0.
+    replace (combine (seq 0 (length pst)) ws0) with (init_live ws0) by (unfold init_live; now rewrite Hlw').
+    rewrite Hout. reflexivity. }
+  split; [exact Hget|].
+  destruct HG as (Hc & HK & HF & HL & HZ).
+  assert (Hsub : subtree_partition n D labels (akeys pst)).
+  { unfold subtree_partition, akeys. rewrite map_length. split; [exact Hl1|]. split; [exact Hl2|]. split; [|exact Hl4].
+    intros l v Hl Hvn. change 0 with (fst (0, @nil nat)) at 2. rewrite map_nth. now apply Hl3. }
+  assert (Hnum : num_clusters labels = length pst).
+  { rewrite (subtree_partition_num _ _ _ _ Hsub). unfold akeys. now rewrite map_length. }
+  assert (Hws : map (cluster_size labels) (seq 0 (num_clusters labels)) = ws0).
+  { rewrite Hnum. unfold ws0, clusters. rewrite <- (map_nth_seq (map (@length nat) (map snd pst)) 0) at 1.
+    rewrite !map_length. apply map_ext_in. intros l Hl. apply in_seq in Hl.
+    unfold labels. rewrite (cpart_sizes n D pst l Hcp) by lia.
+    rewrite (nth_indep _ 0 (length (@nil nat))) by (rewrite !map_length; lia). now rewrite map_nth. }
+  cbv zeta. rewrite Hws.
+  assert (Hk : length st + cntT fl (length D) = n) by exact HL.
+  assert (Hlo : S (length out) = length ws0).
+  { assert (E := urows_length fl D 0). simpl in E. unfold cntU in E at 1. simpl in E. rewrite Nat.add_0_r in E.
+    assert (Elen : length out = length (urows fl 0 D)).
+    { apply (f_equal (@length Q)) in Hh. unfold heights in Hh. now rewrite !map_length in Hh. }
+    assert (E3 := cntT_cntU fl (length D)). unfold ws0, clusters. rewrite !map_length.
+    rewrite (Permutation_length P). lia. }
+  assert (Hrun := reduce_loop_valid_run _ _ _ _ _ _ Hout). destruct Hrun as [live' Hrun].
+  assert (Hlw : length ws0 = length pst) by (unfold ws0, clusters; now rewrite !map_length).
+  rewrite <- Hlw in Hrun.
+  split; [|split].
+  - unfold validw. rewrite Hlo, Nat.eqb_refl, Hrun. simpl.
+    destruct out as [|r0 o] eqn:Eo; [reflexivity|]. rewrite <- Eo in *. apply Nat.eqb_eq.
+    apply (valid_run_last_size ws0 out live' Hlo Hrun). rewrite Eo. discriminate.
+  - unfold ws0. rewrite sumn_lengths_concat. destruct Hcp as (_ & _ & Hperm).
+    fold clusters in Hperm. rewrite (Permutation_length Hperm). apply seq_length.
+  - rewrite Hh. unfold unmerged_rows. f_equal. apply urows_ext. intros t [_ Ht]. simpl in Ht.
+    assert (HG' : ginv n D (length D) fl st) by (split; [exact Hc|split; [exact HK|split; [exact HF|split; [exact HL|exact HZ]]]]).
+    assert (Ht2 := Ht). apply nth_error_Some in Ht2. destruct (nth_error D t) as [r|] eqn:Er; [|congruence].
+    assert (Hne : leaves n D (n + t) <> []) by (apply leaves_nonempty; [assumption|lia]).
+    destruct (fl t) eqn:Hfl; symmetry.
+    + destruct (HF t r Ht Er Hfl) as (_ & _ & k0 & c & Hin & Hincl).
+      destruct (red_same_label n D fl st HG' pst P k0 c Hin) as (l & _ & _ & Hl). fold labels in Hl.
+      unfold all_same. apply forallb_forall. intros u Hu. apply Nat.eqb_eq.
+      rewrite (Hl u (Hincl u Hu)). symmetry. apply Hl, Hincl. destruct (leaves n D (n + t)); [congruence | now left].
+    + destruct (red_unapplied_diff n D Hv fl st HG' pst P t r Er Hfl) as (u & v & Hu & Hv' & Huv). fold labels in Huv.
+      destruct (all_same labels (leaves n D (n + t))) eqn:Eall; [|reflexivity]. exfalso.
+      unfold all_same in Eall. rewrite forallb_forall in Eall.
+      apply Huv. assert (E1 := Eall u Hu). assert (E2 := Eall v Hv'). apply Nat.eqb_eq in E1, E2. congruence.
+Qed.
+
+Lemma cut_height_total n D nc th : S (length D) = n -> 2 <= n ->
+  match nc with Some k => 1 <= k <= n | None => True end -> exists cut, cut_height D nc th = Ok cut.
+Proof.
+  intros Hlen Hn Hnc. unfold cut_height. rewrite Hlen.
+  set (k := match nc with Some k => k | None => match th with None => 2 | Some _ => n end end).
+  assert (Hk : resolve_n_clusters n nc th = Ok k).
+  { unfold k, resolve_n_clusters. destruct nc as [k0|]; [|now destruct th]. unfold check_n_clusters.
+    replace (Nat.ltb n k0) with false by (symmetry; apply Nat.ltb_ge; lia).
+    now replace (Nat.ltb k0 1) with false by (symmetry; apply Nat.ltb_ge; lia). }
+  rewrite Hk. destruct (Nat.eqb k 1) eqn:E1; [now eexists|]. apply Nat.eqb_neq in E1.
+  assert (Hlt : n - k < length (sortq (heights D))).
+  { rewrite sortq_length. unfold heights. rewrite map_length. unfold k in *. destruct nc; [lia|]. destruct th; lia. }
+  apply nth_error_Some in Hlt. destruct (nth_error (sortq (heights D)) (n - k)) as [c|]; [|congruence].
+  eexists. reflexivity.
+Qed.
+
+(** Reduced dendrogram returned by cut_straight (return_dendrogram = True). *)
+Lemma cut_straight_reduced argsort n D0 D nc th sort :
+  cut_input D0 true = Ok D -> valid n D = true -> 2 <= n -> argsort_ok argsort ->
+  match nc with Some k => 1 <= k <= n | None => True end ->
+  exists labels Dnew,
+    cut_straight argsort D0 nc th sort true = Ok (labels, Some Dnew) /\
+    let ws := map (cluster_size labels) (seq 0 (num_clusters labels)) in
+    validw ws Dnew = true /\ sumn ws = n /\
+    heights Dnew = heights (unmerged_rows n D labels).
+Proof.
+  intros Hin Hv Hn Hargs Hnc. destruct (valid_rows n D Hv) as [Hlen Hrows].
+  destruct (cut_height_total n D nc th Hlen Hn Hnc) as [cut Hcut].
+  destruct (replay_total (straight_guard cut) D n (init_clusters n)) as [st Hst].
+  { intros r Hr. destruct (In_nth_error _ _ Hr) as [t Ht]. destruct (Hrows t r Ht) as [H _]. exact H. }
+  destruct (get_labels_reduced _ argsort n D st sort Hv Hargs Hst) as (labels & Dnew & Hget & Hprops).
+  exists labels, Dnew. split; [|exact Hprops].
+  unfold cut_straight, straight_state, straight_state_with. rewrite Hin, Hcut, Hlen, Hst. exact Hget.
+Qed.
+
+Lemma cut_balanced_reduced argsort n D m sort :
+  valid n D = true -> argsort_ok argsort -> 2 <= m <= n ->
+  exists labels Dnew,
+    cut_balanced argsort D m sort true = Ok (labels, Some Dnew) /\
+    let ws := map (cluster_size labels) (seq 0 (num_clusters labels)) in
+    validw ws Dnew = true /\ sumn ws = n /\
+    heights Dnew = heights (unmerged_rows n D labels).
+Proof.
+  intros Hv Hargs Hm. destruct (valid_rows n D Hv) as [Hlen Hrows].
+  destruct (replay_total (balanced_guard m) D n (init_clusters n)) as [st Hst].
+  { intros r Hr. destruct (In_nth_error _ _ Hr) as [t Ht]. destruct (Hrows t r Ht) as [H _]. exact H. }
+  destruct (get_labels_reduced _ argsort n D st sort Hv Hargs Hst) as (labels & Dnew & Hget & Hprops).
+  exists labels, Dnew. split; [|exact Hprops].
+  unfold cut_balanced, balanced_state. rewrite Hlen.
+  replace (Nat.ltb m 2) with false by (symmetry; apply Nat.ltb_ge; lia).
+  replace (Nat.ltb n m) with false by (symmetry; apply Nat.ltb_ge; lia). simpl. rewrite Hst. exact Hget.
+Qed.
+
+Lemma cut_balanced_total argsort n D m sort ret :
+  valid n D = true -> argsort_ok argsort -> 2 <= m <= n ->
+  exists labels od, cut_balanced argsort D m sort ret = Ok (labels, od).
+Proof.
+  intros Hv Hargs Hm. destruct ret.
+  - destruct (cut_balanced_reduced argsort n D m sort Hv Hargs Hm) as (l & d & H & _). now exists l, (Some d).
+  - destruct (valid_rows n D Hv) as [Hlen Hrows].
+    destruct (replay_total (balanced_guard m) D n (init_clusters n)) as [st Hst].
+    { intros r Hr. destruct (In_nth_error _ _ Hr) as [t Ht]. destruct (Hrows t r Ht) as [H _]. exact H. }
+    unfold cut_balanced, balanced_state. rewrite Hlen.
+    replace (Nat.ltb m 2) with false by (symmetry; apply Nat.ltb_ge; lia).
+    replace (Nat.ltb n m) with false by (symmetry; apply Nat.ltb_ge; lia). simpl. rewrite Hst.
+    unfold get_labels. eexists. eexists. reflexivity.
+Qed.
